@@ -322,6 +322,13 @@ func decodeKey(seq ansi.Sequence) Key {
 	case ansi.ESC:
 		key.Keycode = seq.Final
 		key.Modifiers = ModAlt
+		if unicode.IsUpper(seq.Final) {
+			// Alt+Shift+letter: report it like the unprefixed upper-case
+			// letter (and like the kitty protocol does)
+			key.Keycode = unicode.ToLower(seq.Final)
+			key.ShiftedCode = seq.Final
+			key.Modifiers |= ModShift
+		}
 	case ansi.SS3:
 		switch rune(seq) {
 		case 'A':
